@@ -30,6 +30,20 @@ var selState uint32
 //go:linkname goid runtime.simGoid
 func goid() uint64
 
+//go:linkname inBubble runtime.simInBubble
+func inBubble() bool
+
+// active returns the current run if the calling goroutine belongs to its bubble. A
+// goroutine outside any bubble (left over from an un-simulated reference call that is
+// still winding down) must never touch the scheduler: for it every hook is a pass-through.
+func active() *Run {
+	r := cur.Load()
+	if r == nil || !inBubble() {
+		return nil
+	}
+	return r
+}
+
 // ---- tasks -------------------------------------------------------------------
 
 type tstate int
@@ -117,6 +131,10 @@ type Run struct {
 
 var cur atomic.Pointer[Run]
 
+// Stray reports whether the caller is a goroutine outside the bubble of a run in progress
+// (left over from an un-simulated call): the seams ignore it.
+func Stray() bool { return cur.Load() != nil && !inBubble() }
+
 // Active reports whether a simulated run is in progress.
 func Active() bool { return cur.Load() != nil }
 
@@ -138,7 +156,7 @@ func NewRun(ch Chooser, maxSteps int) *Run {
 
 // Probe counts a reached rare condition.
 func Probe(name string) {
-	r := cur.Load()
+	r := active()
 	if r == nil {
 		return
 	}
@@ -376,7 +394,7 @@ func (r *Run) OrderHash() uint64 {
 
 // NoteObj records that the current task performed an event on the named object.
 func NoteObj(obj string, what string) {
-	r := cur.Load()
+	r := active()
 	if r == nil {
 		return
 	}
@@ -466,7 +484,7 @@ func (t *Task) IsDone() bool { return t.state == tDone }
 
 // Go replaces a go statement.
 func Go(site string, fn func()) {
-	r := cur.Load()
+	r := active()
 	if r == nil {
 		go fn()
 		return
@@ -491,7 +509,7 @@ func Go(site string, fn func()) {
 
 // WrapGoErr wraps the function given to errgroup.Group.Go.
 func WrapGoErr(site string, fn func() error) func() error {
-	r := cur.Load()
+	r := active()
 	if r == nil {
 		return fn
 	}
@@ -521,7 +539,7 @@ func WrapGoErr(site string, fn func() error) func() error {
 
 // Pre parks the calling task before an operation that may block or wake others.
 func Pre(site string) {
-	r := cur.Load()
+	r := active()
 	if r == nil {
 		return
 	}
@@ -534,7 +552,7 @@ func Pre(site string) {
 
 // Post parks the calling task right after such an operation.
 func Post(site string) {
-	r := cur.Load()
+	r := active()
 	if r == nil {
 		return
 	}
@@ -547,7 +565,7 @@ func Post(site string) {
 
 // PostSel is Post for a select clause; it records which case fired.
 func PostSel(site string, idx int) {
-	r := cur.Load()
+	r := active()
 	if r == nil {
 		return
 	}
@@ -561,7 +579,7 @@ func PostSel(site string, idx int) {
 // Yield parks the calling task at a point where a stub (reader, writer, callback,
 // disk) hands control to the scheduler.
 func Yield(site string) {
-	r := cur.Load()
+	r := active()
 	if r == nil {
 		return
 	}
@@ -593,7 +611,7 @@ func Recv2[T any, C interface{ ~chan T | ~<-chan T }](ch C, site string) (T, boo
 // Close replaces close(ch).
 func Close[T any, C interface{ ~chan T | ~chan<- T }](ch C, site string) {
 	Pre(site)
-	if r := cur.Load(); r != nil && r.onClose != nil {
+	if r := active(); r != nil && r.onClose != nil {
 		r.onClose(any(ch))
 	}
 	close((chan<- T)(ch))
@@ -601,21 +619,21 @@ func Close[T any, C interface{ ~chan T | ~chan<- T }](ch C, site string) {
 }
 
 func noteRecv(ch any, site string) {
-	if r := cur.Load(); r != nil && r.onRecv != nil {
+	if r := active(); r != nil && r.onRecv != nil {
 		r.onRecv(ch)
 	}
 }
 
 // NoteSend is called right before a send statement executes (level 2 only).
 func NoteSend(ch any) {
-	if r := cur.Load(); r != nil && r.onSend != nil {
+	if r := active(); r != nil && r.onSend != nil {
 		r.onSend(ch)
 	}
 }
 
 // NoteRecv is called right after a receive in a select clause (level 2 only).
 func NoteRecv(ch any) {
-	if r := cur.Load(); r != nil && r.onRecv != nil {
+	if r := active(); r != nil && r.onRecv != nil {
 		r.onRecv(ch)
 	}
 }
@@ -633,7 +651,7 @@ func (r *Run) SetObservers(onSpawn func(parent, child *Task), onSend, onRecv, on
 
 // CurrentTask returns the task executing the caller (or nil outside a run).
 func CurrentTask() *Task {
-	r := cur.Load()
+	r := active()
 	if r == nil {
 		return nil
 	}
